@@ -70,6 +70,15 @@ func (st *State) dead() bool {
 			return true
 		}
 	}
+	if n := len(st.pc); n >= 2 {
+		// the newest conjunct contradicting an earlier one (x and not x) is the common case
+		last := st.pc[n-1]
+		for _, c := range st.pc[:n-1] {
+			if (last.K == term.KNot && last.Args[0] == c) || (c.K == term.KNot && c.Args[0] == last) {
+				return true
+			}
+		}
+	}
 	return false
 }
 
@@ -397,7 +406,12 @@ func mergeValue(c *term.Term, x, y Value) (Value, bool) {
 		if a.Base == nil {
 			return a, true
 		}
-		return &SliceV{Base: a.Base, Off: term.Ite(c, a.Off, b.Off), Len: term.Ite(c, a.Len, b.Len), Cap: term.Ite(c, a.Cap, b.Cap)}, true
+		// slices of different extent are not merged: a length that depends on the path taken would
+		// be symbolic, and almost nothing can be done with such a slice
+		if !term.Same(a.Off, b.Off) || !term.Same(a.Len, b.Len) || !term.Same(a.Cap, b.Cap) {
+			return nil, false
+		}
+		return a, true
 	case *Ptr:
 		b, ok := y.(*Ptr)
 		if !ok {
